@@ -32,7 +32,11 @@ OPTIONAL = [f for f in M.FIELDS if f[0] != "Resolution"]
 NAMES = [f[0] for f in M.FIELDS]
 VFRAGS = ['"', "=", " = ", " ", "  ", "\t", "é", "漢字", "x", "The Song", ", 2018", "song.ogg", "rock", "0",
           "Resolution = 5", 'Artist = "x"', "Offset = 7", "Player2 = rhythm", "bass", "\\", "'", "[Song]",
-          "{", "}", '\\"', '\\"x', "[Events]", "// x", "# x", "; x"] + NAMES + G.UNICODE_ODDITIES + G.MARKUP_ODDITIES + G.WRAPPED
+          "{", "}", '\\"', '\\"x', "[Events]", "// x", "# x", "; x",
+          # values that carry what OTHER fields usually hold (a year, an artist, a stream, a number): each field is
+          # decoded from its own line only
+          "(1988)", "One (1988)", "(2004) ", "1988", ", 1988", "[rock]", "Artist - Song", " - ", "(feat. x)", "120 BPM",
+          "192", "rhythm", "Song (Live)", "(c) 2020", "2020-01-01", "v1.2", "#1", "Track 01"] + NAMES + G.UNICODE_ODDITIES + G.MARKUP_ODDITIES + G.WRAPPED
 str_values = st.one_of(
     st.lists(st.sampled_from(VFRAGS), min_size=1, max_size=4).map("".join),
     st.text(alphabet=st.characters(min_codepoint=32, max_codepoint=0x2FF,
